@@ -156,6 +156,36 @@ class _Setup:
         return self.repo.func(f"{NL}.{name}")
 
 
+def _base(S, shift=0):
+    return [Q(n, d) * Q(1, 2) for n, d in (_RATS * 2)[shift : shift + S.ndof]]
+
+
+def _line(S, base, j):
+    """the unknowns on the line through `base` along unknown j: base + s e_j"""
+    return XArray((S.ndof,), [Poly.const(b) + (Poly.var("s") if i == j else Poly()) for i, b in enumerate(base)])
+
+
+def _spk_lines(repo, f):
+    """3-D: the identities along every coordinate line U = U0 + s e_j through a generic rational point (univariate in s)"""
+    S = _Setup(repo, 3)
+    base = _base(S, 3)
+    n = S.nPe * S.dim
+    for jl in range(n):
+        a, c = divmod(jl, S.dim)
+        j = S.dim * int(S.connect[0, a]) + c
+        st = S.state(_line(S, base, j))
+        K, R = S.M.I.call_function(f, [S.material(), st])
+        if tuple(R.shape) != (1, n) or tuple(K.shape) != (1, n, n):
+            return f"shapes {K.shape}, {R.shape}"
+        Wt = S.wtot(S.kel(st))
+        if not is_zero(Poly.of(R[0, jl]) - Wt.diff("s")):
+            return f"residual[{jl}] is not the derivative of the stored energy with respect to unknown {jl} (on the line through a generic point along that unknown)"
+        for i in range(n):
+            if not is_zero(Poly.of(K[0, i, jl]) - Poly.of(R[0, i]).diff("s")):
+                return f"tangent[{i}][{jl}] is not the derivative of residual {i} with respect to unknown {jl}"
+    return None
+
+
 def _cmp_vec(got, want, label):
     for i, w in enumerate(want):
         if not is_zero(Poly.of(got[0, i]) - w):
@@ -210,6 +240,8 @@ def operator_rule(ctx):
     for dim in (2, 3):
         # ---- SecondPiolaKirchhoffStressTensor --------------------------------
         def spk(f, dim=dim):
+            if dim == 3:
+                return _spk_lines(repo, f)
             S = _Setup(repo, dim)
             U = S.vec("U")
             st = S.state(U)
@@ -305,56 +337,56 @@ def operator_rule(ctx):
     # ---- GonzalezStressTensor (midpoint), 2-D, one integration point ------------
     def gonzalez(f):
         S = _Setup(repo, 2, nPg=1)
-        U = S.vec("U")
-        Un = XArray((S.ndof,), [Q(n, d) * Q(1, 2) for n, d in _RATS[5 : 5 + S.ndof]])
-        Um = (U + Un) * Q(1, 2)
-        sn, sm, s1 = S.state(Un), S.state(Um), S.state(U)
+        base = _base(S, 2)
+        Unv = _base(S, 5)
+        Un = XArray((S.ndof,), Unv)
+        n = S.nPe * S.dim
         iD = Poly.var("iD")
-        prev = S.M.user_call_hook
-        seen = {}
+        for jl in range(n):
+            a, c = divmod(jl, S.dim)
+            j = S.dim * int(S.connect[0, a]) + c
+            U = _line(S, base, j)
+            Um = (U + Un) * Q(1, 2)
+            sn, sm, s1 = S.state(Un), S.state(Um), S.state(U)
+            seen = {}
 
-        def hook(fn, args, kwargs):
-            from ..xeval import _NpAttr
+            def hook(fn, args, kwargs, seen=seen):
+                from ..xeval import _NpAttr
 
-            if isinstance(fn, _NpAttr) and fn.path == "divide" and "where" in kwargs:
-                # the guarded reciprocal of De.De: the generic branch (De.De > eps0); its value is carried as the symbol iD
-                seen["den"] = args[1]
-                return S.FeV((1, 1), [iD])
-            return NotImplemented if prev is None else prev(fn, args, kwargs)
+                if isinstance(fn, _NpAttr) and fn.path == "divide" and "where" in kwargs:
+                    # the guarded reciprocal of De.De: the generic branch (De.De > eps0); its value is carried as the symbol iD
+                    seen["den"] = args[1]
+                    return S.FeV((1, 1), [iD])
+                return NotImplemented
 
-        S.M.user_call_hook = hook
-        K, R = S.M.I.call_function(f, [S.material(), sn, sm, s1])
-        if "den" not in seen:
-            raise AnalysisError("R18.12: the guarded reciprocal of De.De was not found in GonzalezStressTensor")
-        names = S.local_dofs()
-        en, e1 = S.kel(sn), S.kel(s1)
-        dE = [e1[0][i] - en[0][i] for i in range(S.ne)]
-        D = sum((x * x for x in dE), Poly())
-        if not is_zero(Poly.of(XArray.from_nested(seen["den"]).data[0]) - D):
-            return "the denominator of the discrete-gradient correction is not De . De"
-        res = [Poly.of(R[0, i]) for i in range(len(names))]
-        # discrete gradient: R . (U - U_n) == thickness . wJ . (W(e_{n+1}) - W(e_n)) once iD == 1 / D
-        work = Poly()
-        for i, nm in enumerate(names):
-            a, j = divmod(i, S.dim)
-            un = Un[S.dim * int(S.connect[0, a]) + j]
-            work = work + res[i] * (Poly.var(nm) - un)
-        dWtot = (S.W(e1[0]) - S.W(en[0])) * S.wJ[0, 0] * S.h
-        A = work.subs({"iD": Poly()}) if hasattr(work, "subs") else None
-        if A is None:
-            raise AnalysisError("Poly.subs unavailable")
-        B = work - A  # the part linear in iD
-        if not is_zero(B.diff("iD").diff("iD")):
-            return "the residual is not linear in 1 / (De . De)"
-        B1 = B.diff("iD")
-        if not is_zero(A * D + B1 - dWtot * D):
-            return "the discrete-gradient identity fails: residual . (u_{n+1} - u_n) != W(e_{n+1}) - W(e_n) (energy is not conserved by construction)"
-        # consistent tangent: coefK . K == d R / d U_{n+1} with coefK = 1/2 and d iD / dU = - iD^2 dD/dU
-        for i in range(len(names)):
-            for j, nm in enumerate(names):
-                want = res[i].diff(nm) - res[i].diff("iD") * iD * iD * D.diff(nm)
-                if not is_zero(Poly.of(K[0, i, j]) * Q(1, 2) - want):
-                    return f"1/2 . tangent[{i}][{j}] is not the derivative of residual {i} with respect to unknown {j} of u_(n+1)"
+            S.M.user_call_hook = hook
+            K, R = S.M.I.call_function(f, [S.material(), sn, sm, s1])
+            if "den" not in seen:
+                raise AnalysisError("R18.12: the guarded reciprocal of De.De was not found in GonzalezStressTensor")
+            en, e1 = S.kel(sn), S.kel(s1)
+            dE = [e1[0][i] - en[0][i] for i in range(S.ne)]
+            D = sum((x * x for x in dE), Poly())
+            if not is_zero(Poly.of(XArray.from_nested(seen["den"]).data[0]) - D):
+                return "the denominator of the discrete-gradient correction is not De . De"
+            res = [Poly.of(R[0, i]) for i in range(n)]
+            # discrete gradient: R . (U - U_n) == thickness . wJ . (W(e_{n+1}) - W(e_n)) once iD == 1 / D
+            work = Poly()
+            for i in range(n):
+                ai, ci = divmod(i, S.dim)
+                k = S.dim * int(S.connect[0, ai]) + ci
+                work = work + res[i] * (Poly.of(U[k]) - Unv[k])
+            dWtot = (S.W(e1[0]) - S.W(en[0])) * S.wJ[0, 0] * S.h
+            A = work.subs({"iD": Poly()})
+            B = work - A  # the part carrying iD
+            if not is_zero(B.diff("iD").diff("iD")):
+                return "the residual is not linear in 1 / (De . De)"
+            if not is_zero(A * D + B.diff("iD") - dWtot * D):
+                return "the discrete-gradient identity fails: residual . (u_{n+1} - u_n) != W(e_{n+1}) - W(e_n) (energy is not conserved by construction)"
+            # consistent tangent: coefK . K == d R / d U_{n+1} with coefK = 1/2 and d iD / dU = - iD^2 dD/dU
+            for i in range(n):
+                want = res[i].diff("s") - res[i].diff("iD") * iD * iD * D.diff("s")
+                if not is_zero(Poly.of(K[0, i, jl]) * Q(1, 2) - want):
+                    return f"1/2 . tangent[{i}][{jl}] is not the derivative of residual {i} with respect to unknown {jl} of u_(n+1)"
         return None
 
     guard("GonzalezStressTensor", "gonzalez", gonzalez)
